@@ -77,6 +77,42 @@ for trial in range(40):
     if abs(prefactor(e, 1.7 * d) - 1.7 ** 4 * p) > 1e-9 * max(1.0, abs(p)):
         bad.append("prefactor does not scale with the fourth power of a common dipole factor")
 
+# ---- mock calculator: shape of one pathway = prefactor x line shape at the pathway frequencies (rephasing on the negated axis) ------
+try:
+    import quantarhei as qr
+    from quantarhei.spectroscopy.mocktwodcalculator import MockTwoDResponseCalculator
+    from quantarhei.spectroscopy.lineshapes import gaussian2D, lorentzian2D
+
+    class _PW:
+        pass
+    t1 = qr.TimeAxis(0.0, 40, 5.0)
+    t2 = qr.TimeAxis(0.0, 3, 10.0)
+    t3 = qr.TimeAxis(0.0, 40, 5.0)
+    mc = MockTwoDResponseCalculator(t1, t2, t3)
+    with qr.energy_units("1/cm"):
+        mc.bootstrap(rwa=12000.0)
+    w0 = mc.oa1.data[len(mc.oa1.data) // 2 + 3]
+    w1_ = mc.oa3.data[len(mc.oa3.data) // 2 - 2]
+    for ptype in ("R", "NR"):
+        for shape, fn, wkey in (("Gaussian", gaussian2D, "width"), ("Lorentzian", lorentzian2D, "deph")):
+            pw = _PW()
+            pw.order, pw.relax_order, pw.pathway_type = 3, 0, ptype
+            pw.frequency = numpy.array([-w0 if ptype == "R" else w0, 0.0, w1_, 0.0])
+            pw.pref = -0.7
+            pw.widths = numpy.array([-1.0, -1.0, -1.0, -1.0, -1.0])
+            pw.dephs = numpy.array([-1.0, -1.0, -1.0, -1.0, -1.0])
+            got = mc.calculate_pathway(pw, shape=shape)
+            x = -mc.oa1.data if ptype == "R" else mc.oa1.data
+            want = pw.pref * fn(x, pw.frequency[0], getattr(mc, wkey + "x"), mc.oa3.data, pw.frequency[2], getattr(mc, wkey + "y"))
+            if abs(got - want).max() > 1e-10 * max(1.0, abs(want).max()):
+                bad.append("mock calculator: %s pathway with %s shape is not prefactor x line shape at the pathway frequencies "
+                           "(max deviation %.3e)" % (ptype, shape, abs(got - want).max()))
+            got2 = mc.calculate_pathway(None, shape=shape)
+            if abs(got2).max() != 0.0:
+                bad.append("mock calculator: empty pathway gives a non-zero response")
+except Exception as e:      # noqa
+    bad.append("mock calculator part raised %s: %s" % (type(e).__name__, str(e)[:120]))
+
 for b in bad[:10]:
     print("VIOLATED:", b[:400])
 print("C12 oracle: %d violations" % len(bad))
